@@ -95,6 +95,14 @@ def call(variant, y, nodata, prm):
     k = K(variant)
     v, buf, pristine, layout = present(np.asarray(y), np.int16 if variant == "ws2doptvplc" else np.float64)
     before = buf.copy()
+    if "llas" in prm and prm["llas"] is not None:
+        # the grid, too, arrives in the signature dtype and in a data-dependent layout (a slice of a longer table)
+        gv, gbuf, _, glayout = present(np.asarray(prm["llas"], dtype=np.float64) + 0.0, np.float64)
+        gbefore = gbuf.copy()
+        prm = dict(prm, llas=gv)
+    else:
+        gbuf = gbefore = None
+        glayout = "none"
     if variant == "ws2dgu":
         res = k(v, prm["lam"], nodata), None
     elif variant == "ws2dpgu":
@@ -114,7 +122,10 @@ def call(variant, y, nodata, prm):
     R = MONITOR["R"]
     if R is not None:
         R.count(f"input_layout_{layout}")
+        R.count(f"grid_layout_{glayout}")
         R.count("input_unmodified_checks")
+        if gbuf is not None and gbefore.tobytes() != gbuf.tobytes():
+            R.violation(f"{MONITOR['pid']}:input-mutated", f"{variant}: the srange array ({glayout} layout) was modified by the call", {"variant": variant, "y": pristine, "nodata": nodata})
         if before.tobytes() != buf.tobytes():
             b0, b1 = before.ravel(), buf.ravel()
             same = (b0 == b1) | ((b0 != b0) & (b1 != b1))
